@@ -338,6 +338,11 @@ func prefill(v reflect.Value, r *Rng, depth int) {
 }
 
 func GenUnmarshalFamily(w *Writer, r *Rng, t Tier) error {
+	// statically declared targets first (reflect.StructOf cannot make unexported fields): every target
+	// of the list × every result shape must give a value or an error, never a panic
+	if c, err := xsel.ReadXml(strings.NewReader("<r><a k='1'>1</a><b>2</b><!--c--><?p d?></r>")); err == nil {
+		GenUnmarshalTargets(w, r.Fork(), DumpTree(c), "unm-static-targets")
+	}
 	for di := 0; di < t.Docs; di++ {
 		dr := r.Fork()
 		cfg := DefaultDocCfg()
